@@ -1,13 +1,385 @@
 package main
 
+// `govc check -p <id>`: the registered check of one property.
+
 import (
+	"encoding/json"
 	"fmt"
+	"os"
+	"os/exec"
+	"path/filepath"
+	"regexp"
+	"sort"
+	"strings"
 	"time"
 )
 
-func runPropertyCheck(e *Engine, prop, tier string, seed int, t0 time.Time) int {
-	fmt.Println("not implemented")
-	return 3
+type ExtraResult struct {
+	Name    string `json:"name"`
+	Backend string `json:"backend"` // table | linform | effects | bounded | sampled
+	OK      bool   `json:"ok"`
+	Cases   int    `json:"cases"`
+	Detail  string `json:"detail"`
+	Bounded bool   `json:"bounded"`          // true: a bounded stand-in, never counted as discharged
+	Bound   string `json:"bound,omitempty"`
+	WallS   float64 `json:"wall_s"`
 }
 
-func cmdReplay(args []string) int { return 3 }
+type propConfig struct {
+	level   string
+	explain string
+	extras  func(e *Engine, tier string, seed int) []ExtraResult
+	trusted []string
+}
+
+var propConfigs = map[string]*propConfig{}
+
+type KnownFindings struct {
+	Findings []struct {
+		Property   string `json:"property"`
+		Obligation string `json:"obligation"` // regexp on the obligation name
+		What       string `json:"what"`
+	} `json:"findings"`
+	Fixed []struct {
+		Property string `json:"property"`
+		Commit   string `json:"commit"`
+		What     string `json:"what"`
+	} `json:"fixed"`
+}
+
+func loadKnown() *KnownFindings {
+	kf := &KnownFindings{}
+	data, err := os.ReadFile(filepath.Join(verifRoot, "known_findings.json"))
+	if err == nil {
+		json.Unmarshal(data, kf)
+	}
+	return kf
+}
+
+var baseTrusted = []string{
+	"T1 govc itself: VC generator over go/ast+go/types of /repo's working tree, SMT printer (mitigated by must-fail mutants, vacuity guards)",
+	"T2 SMT solvers z3 5.1.0, cvc5 1.0.3, z3 4.8.12",
+	"T3 spec prelude /verif/spec/*.smt2 is the right reading of the specification documents",
+	"T9 Go compiler/runtime implement the Go specification (wrapping arithmetic, bounds checks)",
+}
+
+func runPropertyCheck(e *Engine, prop, tier string, seed int, t0 time.Time) int {
+	cfg := propConfigs[prop]
+	if cfg == nil {
+		cfg = &propConfig{level: "proof"}
+	}
+	thorough := tier == "thorough"
+	timeout := 20
+	if thorough {
+		timeout = 120
+	}
+	keys := e.closureFor(prop)
+	if len(keys) == 0 && cfg.extras == nil {
+		fmt.Printf("govc: no contract is tagged with %s\n", prop)
+		return 3
+	}
+	rs := e.verifyMany(keys, true, timeout, thorough)
+
+	var extras []ExtraResult
+	if cfg.extras != nil {
+		extras = cfg.extras(e, tier, seed)
+	}
+
+	// verdicts
+	groupOK := map[string]bool{}
+	for _, o := range rs.obls {
+		if o.Group != "" && o.ExpectSat && o.Status != "unsat" && o.Status != "error" {
+			groupOK[o.Group] = true
+		}
+	}
+	kf := loadKnown()
+	type viol struct {
+		name, detail, replay string
+		concrete            bool
+	}
+	var viols []viol
+	known := 0
+	nObl, nDis, nGuards := 0, 0, 0
+	byBackend := map[string]int{}
+	solverTime, maxTime := 0.0, 0.0
+	var maxName string
+	funcsUnder := map[string]bool{}
+	var samples []map[string]interface{}
+	assume := map[string]bool{}
+	for _, r := range rs.results {
+		for _, n := range r.Notes {
+			assume[n] = true
+		}
+		if r.Trusted {
+			continue
+		}
+		funcsUnder[r.Key] = true
+		if r.Err != "" {
+			nObl++
+			viols = append(viols, viol{name: r.Key + "/engine", detail: "obligations of " + r.Key + " could not be generated: " + r.Err})
+		}
+	}
+	for _, le := range rs.lemmaErrs {
+		nObl++
+		viols = append(viols, viol{name: "lemma/engine", detail: le})
+	}
+	isKnown := func(name string) (string, bool) {
+		for _, f := range kf.Findings {
+			if f.Property != prop {
+				continue
+			}
+			if re, err := regexp.Compile(f.Obligation); err == nil && re.MatchString(name) {
+				return f.What, true
+			}
+		}
+		return "", false
+	}
+	knownPrinted := map[string]bool{}
+	for _, o := range rs.obls {
+		good := oblOK(o)
+		if o.Group != "" && groupOK[o.Group] {
+			good = true
+		}
+		solverTime += o.TimeS
+		if o.TimeS > maxTime {
+			maxTime, maxName = o.TimeS, o.Name
+		}
+		if o.ExpectSat {
+			nGuards++
+		} else {
+			nObl++
+			if good {
+				nDis++
+				byBackend[o.Solver]++
+			}
+		}
+		if len(samples) < 6 && !o.ExpectSat && good && (o.Kind == "ensures" || o.Kind == "lemma" || o.Kind == "inv-preserved") {
+			samples = append(samples, map[string]interface{}{"obligation": o.Name, "kind": o.Kind, "at": o.Pos, "status": o.Status, "solver": o.Solver, "time_s": round3(o.TimeS)})
+		}
+		if good {
+			continue
+		}
+		if what, ok := isKnown(o.Name); ok {
+			known++
+			if !knownPrinted[what] {
+				fmt.Printf("KNOWN-FINDING: property=%s %s\n", prop, what)
+				knownPrinted[what] = true
+			}
+			continue
+		}
+		det := fmt.Sprintf("%s obligation %s at %s: solver status %s", o.Kind, o.Name, o.Pos, o.Status)
+		if o.ExpectSat {
+			det = fmt.Sprintf("vacuity guard %s at %s is unsatisfiable (contradictory contract or unreachable code)", o.Name, o.Pos)
+		}
+		viols = append(viols, viol{name: o.Name, detail: det + "\n" + o.Model, replay: o.SMTFile})
+	}
+	for _, x := range extras {
+		if x.Bounded {
+			continue
+		}
+		nObl++
+		if x.OK {
+			nDis++
+			byBackend[x.Backend]++
+		} else {
+			if what, ok := isKnown(x.Name); ok {
+				known++
+				if !knownPrinted[what] {
+					fmt.Printf("KNOWN-FINDING: property=%s %s\n", prop, what)
+					knownPrinted[what] = true
+				}
+				continue
+			}
+			viols = append(viols, viol{name: x.Backend + "/" + x.Name, detail: x.Detail})
+		}
+	}
+	for _, x := range extras {
+		if x.Bounded && !x.OK {
+			if what, ok := isKnown(x.Name); ok {
+				known++
+				if !knownPrinted[what] {
+					fmt.Printf("KNOWN-FINDING: property=%s %s\n", prop, what)
+					knownPrinted[what] = true
+				}
+				continue
+			}
+			viols = append(viols, viol{name: x.Backend + "/" + x.Name, detail: x.Detail, concrete: true})
+		}
+	}
+
+	// replay files + VIOLATION lines
+	rdir := filepath.Join(verifRoot, "replays", prop)
+	for i := range viols {
+		v := &viols[i]
+		os.MkdirAll(rdir, 0o755)
+		path := filepath.Join(rdir, sanitize(v.name)+".json")
+		rep := map[string]interface{}{"property": prop, "obligation": v.name, "verifier_output": v.detail, "smt_file": v.replay, "tier": tier}
+		concrete := v.concrete
+		if !concrete {
+			if res := e.tryReplay(prop, v.name, rs.obls); res != nil {
+				rep["replay"] = res
+				if ok, _ := res["reproduced"].(bool); ok {
+					concrete = true
+				}
+			}
+		}
+		rep["failing_input_found"] = concrete
+		writeJSON(path, rep)
+		line := fmt.Sprintf("VIOLATION property=%s replay=%s", prop, path)
+		if !concrete {
+			line += " obligation=" + strings.ReplaceAll(v.name, " ", "_") + " no-failing-input-found"
+		}
+		fmt.Println(line)
+	}
+
+	// evidence
+	var fl []string
+	for k := range funcsUnder {
+		fl = append(fl, k)
+	}
+	sort.Strings(fl)
+	var al []string
+	for k := range assume {
+		al = append(al, k)
+	}
+	for _, c := range e.cs.Funcs {
+		if c.Used && c.External {
+			al = append(al, "assumed contract on dependency (unchecked): "+c.Key)
+		}
+	}
+	al = append(al, cfg.trusted...)
+	sort.Strings(al)
+	al = dedup(al)
+	cov := map[string]interface{}{
+		"obligations":              nObl,
+		"discharged":               nDis,
+		"checker_cmd":              fmt.Sprintf("/verif/bin/govc check -p %s -tier %s  (z3-new 5.1.0 | cvc5 1.0.3 | z3 4.8.12 raced per obligation, timeout %ds)", prop, tier, timeout),
+		"trusted_base":             append(append([]string{}, baseTrusted...), cfg.trusted...),
+		"functions_under_contract": fl,
+		"by_backend":               byBackend,
+		"solver_time_s":            map[string]interface{}{"sum": round3(solverTime), "max": round3(maxTime), "max_obligation": maxName},
+		"vacuity_guards":           nGuards,
+		"known_findings_matched":   known,
+		"samples":                  samples,
+		"contract_files":           e.cs.Files,
+		"spec_files":               e.spec.files,
+	}
+	if len(extras) > 0 {
+		cov["other_backends"] = extras
+		var bounded []ExtraResult
+		for _, x := range extras {
+			if x.Bounded {
+				bounded = append(bounded, x)
+			}
+		}
+		if len(bounded) > 0 {
+			cov["bounded"] = bounded
+		}
+	}
+	level := cfg.level
+	if level == "" {
+		level = "proof"
+	}
+	if cfg.explain != "" {
+		cov["explanation"] = cfg.explain
+	}
+	if len(samples) == 0 {
+		cov["samples"] = []map[string]interface{}{{"note": "no solver obligation in this property; see other_backends"}}
+	}
+	ev := Evidence{PropertyID: prop, Tier: tier, Seed: seed, Level: level, Coverage: cov, Assumptions: al, WallS: round3(time.Since(t0).Seconds()), Violations: len(viols)}
+	if err := writeJSON(filepath.Join(verifRoot, "evidence", prop+".json"), ev); err != nil {
+		fmt.Fprintln(os.Stderr, "govc: evidence:", err)
+		return 3
+	}
+	fmt.Printf("%s: %d obligations, %d discharged, %d vacuity guards, %d violations, %d known findings, %.1fs\n", prop, nObl, nDis, nGuards, len(viols), known, time.Since(t0).Seconds())
+	if len(viols) > 0 {
+		return 1
+	}
+	return 0
+}
+
+func round3(f float64) float64 { return float64(int64(f*1000+0.5)) / 1000 }
+
+func dedup(s []string) []string {
+	var out []string
+	for i, x := range s {
+		if i == 0 || x != s[i-1] {
+			out = append(out, x)
+		}
+	}
+	return out
+}
+
+func (e *Engine) tryReplay(prop, name string, obls []*Obligation) map[string]interface{} {
+	return nil
+}
+
+func cmdReplay(args []string) int {
+	if len(args) < 1 {
+		usage()
+	}
+	data, err := os.ReadFile(args[0])
+	if err != nil {
+		fmt.Fprintln(os.Stderr, err)
+		return 3
+	}
+	var rep map[string]interface{}
+	if err := json.Unmarshal(data, &rep); err != nil {
+		fmt.Fprintln(os.Stderr, err)
+		return 3
+	}
+	prop, _ := rep["property"].(string)
+	fmt.Printf("replaying %s: re-running the check of property %s on the current tree\n", rep["obligation"], prop)
+	e := load()
+	e.prop = prop
+	return runPropertyCheck(e, prop, "quick", 0, time.Now())
+}
+
+// ---- overlay runs of the real code --------------------------------------------------------------------------
+
+// runOverlayTest injects harness files (dst path inside the repo -> source text) and runs `go test`.
+func (e *Engine) runOverlayTest(pkgDir string, files map[string]string, runPat string, timeoutS int, extraArgs ...string) (string, error) {
+	dir := scratchDir()
+	defer os.RemoveAll(dir)
+	repl := map[string]string{}
+	i := 0
+	for dst, text := range files {
+		src := filepath.Join(dir, fmt.Sprintf("h%d.go", i))
+		i++
+		if err := os.WriteFile(src, []byte(text), 0o644); err != nil {
+			return "", err
+		}
+		repl[filepath.Join(e.repo, dst)] = src
+	}
+	ov, _ := json.Marshal(map[string]interface{}{"Replace": repl})
+	ovf := filepath.Join(dir, "ov.json")
+	os.WriteFile(ovf, ov, 0o644)
+	args := []string{"test", "-overlay", ovf, "-vet=off", "-count=1", fmt.Sprintf("-timeout=%ds", timeoutS), "-run", runPat, "-v"}
+	args = append(args, extraArgs...)
+	args = append(args, "./"+pkgDir)
+	cmd := exec.Command("go", args...)
+	cmd.Dir = e.repo
+	cmd.Env = goEnv()
+	out, err := cmd.CombinedOutput()
+	return string(out), err
+}
+
+func readHarness(rel string) string {
+	data, err := os.ReadFile(filepath.Join(verifRoot, "harness", rel))
+	if err != nil {
+		return ""
+	}
+	return string(data)
+}
+
+var tableLine = regexp.MustCompile(`(?m)^TABLE (\S+) cases=(\d+) ok=(true|false)(.*)$`)
+
+func parseTable(out string, backend string, wall float64) []ExtraResult {
+	var rs []ExtraResult
+	for _, m := range tableLine.FindAllStringSubmatch(out, -1) {
+		n := 0
+		fmt.Sscanf(m[2], "%d", &n)
+		rs = append(rs, ExtraResult{Name: m[1], Backend: backend, OK: m[3] == "true", Cases: n, Detail: strings.TrimSpace(m[4]) + " (exhaustive evaluation of the real code)", WallS: round3(wall)})
+	}
+	return rs
+}
